@@ -5,6 +5,7 @@
 //! parsed into a placeholder. This transform replaces the placeholders
 //! with well-known types.
 use ironplc_dsl::common::*;
+use ironplc_dsl::configuration::FunctionBlockInit;
 use ironplc_dsl::core::{Located, SourceSpan};
 use ironplc_dsl::diagnostic::{Diagnostic, Label};
 use ironplc_dsl::fold::Fold;
@@ -254,6 +255,16 @@ impl<'a> Fold<Diagnostic> for TypeResolver<'a> {
         // An access path (VAR_ACCESS name : variable : type) writes out the
         // type of the variable it gives access to.
         self.require_known_type(&node.type_name, "Access path type");
+        node.recurse_fold(self)
+    }
+
+    fn fold_function_block_init(
+        &mut self,
+        node: FunctionBlockInit,
+    ) -> Result<FunctionBlockInit, Diagnostic> {
+        // An instance specific initialization (VAR_CONFIG path : type := (...))
+        // writes out the type of the function block instance.
+        self.require_known_type(&node.type_name, "Function block type");
         node.recurse_fold(self)
     }
 
